@@ -85,10 +85,18 @@ def plan_names(entry, family, thorough):
     elif family == 'payload':
         for i in range(len(PAYLOADS)):
             yield str(i)
+    elif family == 'mixed':
+        for other in MIXED:
+            if other != entry[4]:
+                yield other
     elif family == 'notused':
         yield 'N'
     elif family == 'trailing':
         yield 'T'
+
+
+# files that hold interchanges of different maps and versions (the XML -> X12 writer sees several ISA versions)
+MIXED = ('834.4010.X095.A1.xml', '834.5010.X220.A1.xml', '835.5010.X221.A1.xml', '997.4010.xml', '999.5010.xml')
 
 
 def plan_by_name(entry, name):
@@ -221,6 +229,12 @@ def make_doc(case):
     try:
         if fam in ('plan', 'pair'):
             d = gen.build(entry, plan_by_name(entry, case['plan']))
+        elif fam == 'mixed':
+            d1 = corpus.build_ok(entry, {})
+            d2 = corpus.build_ok(entry_of(case['plan']), {'groups': 2})
+            if d1 is None or d2 is None:
+                return None, 'no base document', 0
+            return gen.concat(d1, d2), None, 0
         elif fam == 'payload':
             d, info = payload_doc(entry, PAYLOADS[int(case['plan'])])
         elif fam == 'trailing':
@@ -441,7 +455,8 @@ def check_back(doc, back, V):
                     got[p] = dd
         want = src_values(s)
         if s[0] == 'ISA':
-            for p in (11, 16):
+            # ISA16 always, ISA11 only in 00501, are delimiters (rewritten with the converter's own); in 00401 ISA11 is data
+            for p in ((11, 16) if (len(s) > 12 and s[12] == '00501') else (16,)):
                 want.pop(p, None); got.pop(p, None)
         for p in sorted(set(want) | set(got)):
             w = want.get(p, ''); g = got.get(p, '')
@@ -559,6 +574,8 @@ def run(R):
             n = 8 if big else 2
             for p in range(n):
                 shards.append((f, 'plan', dl, p, n, R.thorough))
+        if f in MIXED:
+            shards.append((f, 'mixed', 0, 0, 1, R.thorough))
         for dl in range(len(DELIMS)):
             shards.append((f, 'payload', dl, 0, 1, R.thorough))
             shards.append((f, 'notused', dl, 0, 1, R.thorough))
@@ -575,6 +592,7 @@ def run(R):
                  'gen.plans_d1 documents of kinds %s in ~*: delimiters' % ', '.join(QUICK_KINDS)),
         'pair': 'every pair of loop-level include:/repeat2: deviations per map' if R.thorough else 'not run',
         'payload': '%d payloads %r on all free-text AN elements of one all-filled document per map x %d delimiter sets %r' % (len(PAYLOADS), PAYLOADS, len(DELIMS), DELIMS),
+        'mixed': 'files of two interchanges of different maps / versions: every ordered pair of %r (minimal document, then a two-group document)' % (MIXED,),
         'notused': 'one all-filled document per map with every not-used element / composite / component given a value x %d delimiter sets' % len(DELIMS),
         'trailing': 'one all-filled document per map written with all trailing empty elements and components of the definitions x %d delimiter sets' % len(DELIMS),
     }
